@@ -279,6 +279,7 @@ def c08_structure(run):
     run.assume('SHA-256 is collision free and leaf/inner domain separation holds (modelled by distinct free constructors)')
     ex = merkle_engine(structure_hooks())
     ex.drop_types = {'LeafBuilder'}
+    ex.max_steps = 400000 if run.tier == 'quick' else 6000000
     push = ex.find(r'(^|::)<impl at [^>]*>::push$')
     root_f = ex.find(r'(^|::)<impl at [^>]*>::root$')
     cproof = ex.find(r'(^|::)<impl at [^>]*>::construct_proof$')
